@@ -77,10 +77,10 @@ Definition eri_integral (basis : list (shell F)) (T : option (list (list F))) (p
   let ps := map (prep K) basis in
   let ss := map (fun p => mkSh (s_sph (p_shell p)) (p_T p) (p_norm p)) ps in
   let d := dummy_p K in
-  let chem := four_symm K (f0 K) (fadd K) (fmul K) 2 ss (fun i j k l =>
+  let chem := four_symm (f0 K) (fadd K) (fmul K) 2 ss (fun i j k l =>
       eri_block K (p_shell (nth i ps d)) (p_shell (nth j ps d)) (p_shell (nth k ps d))
                   (p_shell (nth l ps d))) in
-  let arr := match T with None => chem | Some t => lincomb4 K (f0 K) (fadd K) (fmul K) t chem end in
+  let arr := match T with None => chem | Some t => lincomb4 (f0 K) (fadd K) (fmul K) t chem end in
   if physicist then swapax (f0 K) 1 2 arr else arr.
 
 (* the pinned tree's behaviour (plain transposition), kept for the record of the defect *)
